@@ -200,6 +200,18 @@ def sockStep (s : Sock.Sock) (toks : List String) : Sock.Sock × String :=
       match Sock.bind s a (parseBool (kv.get "asym" "0")) with
       | .error e => (s, sockLine s s s!"exc {e.name}")
       | .ok s1 => (s1, sockLine s s1 "ok")
+  | "bindfail" :: rest =>
+    -- the kernel refuses the bind (OSError: unknown interface, EBADF ...): everything `bind()` did before the kernel call stands
+    -- (the extended-address options were already written), but the wrapper is NOT bound
+    let kv := parseKV rest
+    match mkAddr kv with
+    | .error e => (s, sockLine s s s!"addr-exc {e.name}")
+    | .ok a =>
+      match Sock.bind s a (parseBool (kv.get "asym" "0")) with
+      | .error e => (s, sockLine s s s!"exc {e.name}")
+      | .ok s1 =>
+        let s2 : Sock.Sock := { s1 with bound := s.bound, k := { s1.k with bound := s.k.bound } }
+        (s2, sockLine s s2 "exc OSError")
   | ["send"] => (s, sockLine s s (match Sock.ioGuard s with | some e => s!"exc {e.name}" | none => "ok"))
   | ["recv"] => (s, sockLine s s (match Sock.ioGuard s with | some e => s!"exc {e.name}" | none => "ok"))
   | ["close"] => let s1 := Sock.close s; (s1, sockLine s s1 "ok")
